@@ -68,6 +68,26 @@ func (i *Index) Search(key types.Key) (BlockHandle, bool) {
 	return BlockHandle{}, false
 }
 
+// SearchLowerBound data block holding the first entry greater or equal than key,
+// i.e. the first data block whose EndKey is greater or equal than key
+func (i *Index) SearchLowerBound(key types.Key) (BlockHandle, bool) {
+	low, high := 0, len(i.Entries)-1
+	res := -1
+	for low <= high {
+		mid := low + ((high - low) >> 1)
+		if types.CompareKeys(i.Entries[mid].EndKey, key) >= 0 {
+			res = mid
+			high = mid - 1
+		} else {
+			low = mid + 1
+		}
+	}
+	if res < 0 {
+		return BlockHandle{}, false
+	}
+	return i.Entries[res].DataHandle, true
+}
+
 func (i *Index) Scan(start, end types.Key) []BlockHandle {
 	var res []BlockHandle
 	for _, entry := range i.Entries {
